@@ -153,6 +153,64 @@ func runAllocConcurrent(c *Ctx, rounds int) {
 					}
 				}
 			}
+			if r%4 == 2 && n >= 2*G {
+				// half of the goroutines free their block while the other half allocate neighbouring free
+				// blocks by hint, all at the same moment; afterwards every freed block must be free again
+				// (a hint naming it is honoured) and every hinted block must have been returned
+				h := G / 2
+				okSetup := true
+				for g := 0; g < h; g++ {
+					blk := net.IPNet{IP: net.IP(p.blockBase(uint64(g))), Mask: net.CIDRMask(p.pageOrMax(), p.bitsLen())}
+					got, err := p.a.Allocate(blk)
+					if err != nil {
+						okSetup = false
+						break
+					}
+					mode[g] = 1
+					res[g] = concRes{got.IP, nil}
+				}
+				if okSetup {
+					for g := h; g < G; g++ {
+						mode[g] = 0
+						hints[g] = net.IPNet{IP: net.IP(p.blockBase(uint64(G + g))), Mask: net.CIDRMask(p.pageOrMax(), p.bitsLen())}
+					}
+					step()
+					in := map[string]interface{}{"pool": p.desc, "round": r, "freeing": h, "allocating by hint": G - h}
+					for g := 0; g < h; g++ {
+						if res[g].err != nil {
+							bad++
+							c.vio("C06", "concurrent-free-fails", fmt.Sprintf("%s: Free of an outstanding block failed while other blocks were being allocated: %v", p.desc, res[g].err), in)
+						}
+					}
+					for g := h; g < G; g++ {
+						idx, ok := p.blockOf(res[g].ip)
+						if res[g].err != nil || !ok || idx != uint64(G+g) {
+							bad++
+							c.vio("C07", "hint-not-honoured", fmt.Sprintf("%s: a hint naming the free block %d was answered with %v (%v) while other blocks were being freed", p.desc, G+g, res[g].ip, res[g].err), in)
+						}
+					}
+					for g := 0; g < h; g++ {
+						blk := net.IPNet{IP: net.IP(p.blockBase(uint64(g))), Mask: net.CIDRMask(p.pageOrMax(), p.bitsLen())}
+						got, err := p.a.Allocate(blk)
+						idx, ok := p.blockOf(got.IP)
+						if err != nil || !ok || idx != uint64(g) {
+							bad++
+							c.vio("C07", "hint-not-honoured", fmt.Sprintf("%s: block %d was freed successfully (concurrently with allocations in the same bitmap word) but a hint naming it is answered with %v (%v): the release was lost", p.desc, g, got.IP, err), in)
+						}
+						if err == nil {
+							p.a.Free(net.IPNet{IP: got.IP, Mask: net.CIDRMask(p.pageOrMax(), p.bitsLen())})
+						}
+					}
+					for g := h; g < G; g++ {
+						if res[g].err == nil && res[g].ip != nil {
+							p.a.Free(net.IPNet{IP: res[g].ip, Mask: net.CIDRMask(p.pageOrMax(), p.bitsLen())})
+						}
+					}
+				}
+				for g := 0; g < G; g++ {
+					res[g] = concRes{}
+				}
+			}
 			c.Evals++
 		}
 		atomic.StoreInt64(&stop, 1)
